@@ -169,6 +169,8 @@ def compare_batch(res: Result, drv: Driver, what: str, cases: list, lines: list[
     if not drv.available:
         res.notes.append(f"driver unavailable: correspondence '{what}' skipped ({len(lines)} cases)")
         return
+    if not lines:
+        return
     res.driver_used = True
     outs = drv.run(lines)
     for case, line, m, i in zip(cases, lines, outs, impl_answers):
